@@ -52,13 +52,12 @@ def families(ctx):
         fam("n4rx", 8, both=False, N=4, kinds=BS, reqsets=1, reqs=2, owners=1, maxxor=1, mingroup=2, maxgroup=4)
         fam("n4x", 8, both=False, N=4, kinds=BS, reqsets=1, reqs=1, owners=1, maxxor=2, mingroup=2, maxgroup=2)
         fam("n4g", 8, both=False, N=4, kinds=BS, reqsets=0, reqs=0, owners=1, maxxor=2, mingroup=2, maxgroup=4)
-        # 5 fields: two seed-chosen kind vectors of the 32 (the only family not enumerated completely)
-        fam("n5", 32, pick=2, both=False, N=5, kinds=BS, reqsets=1, reqs=2, owners=1, maxxor=1, mingroup=2, maxgroup=3)
+        # 5 fields: one seed-chosen kind vector of the 32 (the only family not enumerated completely)
+        fam("n5", 32, pick=1, both=False, N=5, kinds=BS, reqsets=1, reqs=2, owners=1, maxxor=1, mingroup=2, maxgroup=3)
     else:
         # the same families, the larger ones on seed-chosen shards of the kind vectors
         fam("n2", 2, pick=1, both=False, N=2, kinds=BSI + ["m"], maxmand=1, reqsets=2, reqs=2, owners=2, maxxor=2, mingroup=1, maxgroup=2)
         fam("n3", 27, pick=1, both=False, N=3, kinds=BSI, reqsets=2, reqs=2, owners=1, maxxor=2, mingroup=2, maxgroup=3)
-        fam("n3m", 9, pick=1, N=3, kinds=["b", "s", "m"], maxmand=1, reqsets=1, reqs=2, owners=1, maxxor=1, mingroup=1, maxgroup=3)
         fam("n4rx", 16, pick=1, both=False, N=4, kinds=BS, reqsets=1, reqs=2, owners=1, maxxor=1, mingroup=2, maxgroup=4)
         fam("n4x", 16, pick=1, both=False, N=4, kinds=BS, reqsets=1, reqs=1, owners=1, maxxor=2, mingroup=2, maxgroup=2)
     return F
@@ -95,6 +94,7 @@ def selftest(ctx):
 
 
 def run(ctx):
+    rc.private_hash_cache(ctx.scratch)
     selftest(ctx)
     ctx.extra["selftest_s"] = round(time.time() - ctx.t0, 1)
     fams = families(ctx)
@@ -149,15 +149,16 @@ def run(ctx):
     ctx.extra["distinct_pairs"] = sum(n for n, _ in seen.values())
     ctx.extra["execution_context_runs"] = ctx_counts
     if ctx.thorough:
-        ctx.extra["thorough_scope"] = "every family enumerated completely except n5 (2 seed-chosen kind vectors of 32)"
+        ctx.extra["thorough_scope"] = "every family enumerated completely except n5 (1 seed-chosen kind vector of 32)"
     if not ctx.thorough:
-        ctx.extra["quick_scope"] = "families n3/n3m/n4rx/n4x (and half of n2) restricted to one seed-chosen shard of the kind vectors each"
+        ctx.extra["quick_scope"] = "families n3/n4rx/n4x (and half of n2) restricted to one seed-chosen shard of the kind vectors each"
     ctx.assume("a bool field holding False (flag off) and an optional field holding None count as not set; "
                "falsy-but-not-None values (0, '', []) are outside the value menu because the statement does not decide them")
     ctx.assume("requirements refer to other fields (no self-requirement); allowed values only on str fields")
 
 
 def replay(ctx, rec):
+    rc.private_hash_cache(ctx.scratch)
     c = rec["case"]
     one, fl, level = c["tlc"], c["flavour"], c["level"]
     ctx.ran()
